@@ -99,6 +99,7 @@ class Session:
         self.sc = sc
         self.ev = []
         self.cur = None
+        self.cur_objs = None
         self.fetcher = {}
         self.ext = None
         self.done = {'log': False, 'param': False}
@@ -146,6 +147,9 @@ class Session:
             def __init__(self, cf, toc):
                 paramm_ext_init(self, cf, toc)
                 me.ext = self
+                f = me.fetcher.get('param')
+                if f is not None:
+                    f._c03_ext = self            # the extended-type fetcher of this download
         paramm_ext_init = self._saved[2].__init__
         logm.TocFetcher = TocFetcher
         paramm.TocFetcher = TocFetcher
@@ -208,6 +212,9 @@ class Session:
         self.finalize()
         if k is not None:
             self.cur = {'e': 'rx', 'kind': k, 'ch': pk.channel, 'd': list(pk.data), 'st': None}
+            # the objects of the connection this packet belongs to (the projection is taken when the
+            # dispatcher has finished with the packet; a reconnect may have replaced them by then)
+            self.cur_objs = (self.fetcher.get(k), self.ext, self.done)
             self.ev.append(self.cur)
 
     def _on_idle(self):
@@ -221,7 +228,7 @@ class Session:
 
     def finalize(self):
         if self.cur is not None:
-            self.cur['st'] = self.project(self.cur['kind'])
+            self.cur['st'] = self.project(self.cur['kind'], self.cur_objs)
             self.cur = None
 
     def _on_connected(self, uri):
@@ -235,8 +242,10 @@ class Session:
         self.cf.open_link('tocsim://0/%d' % attempt)
 
     # ---- projections
-    def project(self, kind):
-        f = self.fetcher.get(kind)
+    def project(self, kind, objs=None):
+        f, ext, done = objs if objs is not None else (self.fetcher.get(kind), self.ext, self.done)
+        if f is not None:
+            ext = getattr(f, '_c03_ext', None)
         if f is None:
             return {'fstate': 'idle', 'cb': False, 'reqIdx': 0, 'nItems': 0, 'ntoc': 0, 'done': False, 'xcount': 0}
         try:
@@ -248,10 +257,10 @@ class Session:
         except Exception:
             ntoc = 70000
         xc = 0
-        if kind == 'param' and self.ext is not None:
-            xc = max(0, _int(self.ext._count, 0))
+        if kind == 'param' and ext is not None:
+            xc = max(0, _int(ext._count, 0))
         return {'fstate': FSTATE.get(f.state, 'idle'), 'cb': bool(cb), 'reqIdx': _int(f.requested_index, 0),
-                'nItems': _int(f.nbr_of_items, 0), 'ntoc': ntoc, 'done': bool(self.done[kind]), 'xcount': xc}
+                'nItems': _int(f.nbr_of_items, 0), 'ntoc': ntoc, 'done': bool(done[kind]), 'xcount': xc}
 
     def snapshot(self, what):
         cf = self.cf
@@ -283,7 +292,7 @@ def execute(sc, mutant=None):
     undo = None
     res = {'connected': 0, 'flushes': 0}
     try:
-        with vsched.scheduler(make_policy(sc['policy']), max_steps=sc.get('max_steps', 600000), max_threads=40000) as s:
+        with vsched.scheduler(make_policy(sc['policy']), max_steps=sc.get('max_steps', 600000), max_threads=1000) as s:
             if mutant:
                 undo = MUTANTS[mutant]()
             ses = Session(s, sc, cache_dir=cache_dir)
@@ -291,7 +300,7 @@ def execute(sc, mutant=None):
                 def user():
                     for c in range(sc.get('connects', 1)):
                         ses.open(c + 1)
-                        for _ in range(3000):
+                        for _ in range(sc.get('max_wait', 3000)):
                             if ses.connected_evt.wait(0.35):
                                 break
                             ses.dev.flush_held()          # a delayed reply finally arrives
@@ -378,7 +387,7 @@ def replay(job):
     mism = None
     nsteps = matched = 0
     try:
-        with vsched.scheduler(vsched.FifoPolicy(), max_steps=400000, max_threads=40000) as s:
+        with vsched.scheduler(vsched.FifoPolicy(), max_steps=400000, max_threads=1000) as s:
             ses = Session(s, sc, cache_dir=cache_dir)
             try:
                 dev, cf = ses.dev, ses.cf
@@ -706,7 +715,7 @@ MUTANTS.update({
 SIZES_V2 = [0, 1, 2, 3, 254, 255, 256, 257, 258, 300]
 SIZES_V1 = [0, 1, 2, 3, 254, 255]
 PVER_V2 = [4, 5, 10]
-PVER_V1 = [0, 1, 3]
+PVER_V1 = [0, 1, 3, -1]        # -1: the link service does not answer with the magic string -> no version -> V1
 FAULT_ACTS = [['deliver', 'dup'], ['deliver', 'dup', 'dup'], [['hold', 1]], [['hold', 2]], [['hold', 3]],
               [['hold', 1], 'dup'], [['hold', 6]]]
 
@@ -743,7 +752,9 @@ def scenarios(tier, rng):
         pairs = [(a, b) for a in small for b in small]
         if quick:
             pairs = pairs[::3]
-            bigpairs = [(big[i], big[-1 - i]) for i in range(len(big))][::2] + [(0, big[-1])]
+            bigpairs = [(big[i], big[-1 - i]) for i in range(len(big))][::2]
+            if not v2:
+                bigpairs.append((0, big[-1]))
         else:
             bigpairs = [(a, b) for a in big for b in big if (a + b) % 2 == 0 or a == b] + [(0, big[-1]), (big[-1], 0)]
         for i, (a, b) in enumerate(pairs + bigpairs):
@@ -776,11 +787,11 @@ def scenarios(tier, rng):
     for (ver, n) in cases:
         ks = sorted({1, 2, 255, 256, 257, 258, 259, n, n + 1} & set(range(1, n + 2)))
         if quick:
-            ks = [k for k in ks if k in (257, 258, n + 1, 256)]
+            ks = [k for k in ks if k in (257, 256)][:1 if ver == 1 else 2]
         for j, k in enumerate(ks):
             acts = FAULT_ACTS[:4] if not quick else [FAULT_ACTS[j % 4]]
-            for act in acts:
-                kind = ['log', 'param'][(j + len(act)) % 2]
+            for ai, act in enumerate(acts):
+                kind = ['log', 'param'][(j + ai) % 2]
                 nl, npar = (n, 3) if kind == 'log' else (3, n)
                 sc = make_scenario(rng, nl, npar, 10 if ver == 2 else 3, faults={kind: {str(k): act}})
                 out.append(('boundary', sc))
@@ -798,7 +809,7 @@ def scenarios(tier, rng):
                 out.append(('cache', make_scenario(rng, a, b, 10 if v2 else 3, faults=f, cache=True, connects=2,
                                                    resend=(r % 2 == 0))))
     # -- random
-    for _ in range(250 if quick else 5000):
+    for _ in range(250 if quick else 4000):
         pver = rng.choice(PVER_V2 + PVER_V1)
         a, b = rng.choice([0, 1, 2, 3, 5, 9, 17, 40]), rng.choice([0, 1, 2, 3, 5, 9, 17, 40])
         sc = make_scenario(rng, a, b, pver, resend=rng.random() < 0.8, style=rng.choice(['mixed', 'latin1', 'short']))
@@ -947,23 +958,37 @@ def _summary(sc):
 
 
 def mutant_suite(rng, tier):
-    """scenarios on which every mutant must fail somewhere: duplicated / late replies at every
+    """(scenario, mutants it is meant for | None = all): duplicated / late replies at every
     position of small tables, a table beyond 256 entries, the last index, a cache hit"""
     out = []
-    for v2 in (True, False):
+    for v2 in ((True,) if tier == 'quick' else (True, False)):
         base = make_scenario(rng, 3, 4, 10 if v2 else 3)
-        out.append(base)
+        for e, t in zip(base['param'], (0x48, 0x19, 0x06, 0x50)):     # RO, extended persistent, plain, RO+extended
+            e['type'] = t
+            e['xt'] = 1 if t & 0x10 else 0
+            e['value'] = e['default'] = bytes(tocdev.PARAM_WIDTH[t & 0x0F])
+        for kind in ('log', 'param'):          # entries 0 and 2 share a group: dict order != index order
+            for e, g in zip(base[kind], (b'A', b'B', b'A', b'C')):
+                e['group'] = g
+            base[kind][2]['name'] = bytes(base[kind][0]['name'][:20]) + b'x'
+        out.append((base, None))
         for kind in ('log', 'param'):
             for k in range(1, _nreplies(base, kind) + 1):
-                for act in (['deliver', 'dup'], [['hold', 1]]):
+                for act in ((['deliver', 'dup'],) if tier == 'quick' else (['deliver', 'dup'], [['hold', 1]])):
                     sc = copy.deepcopy(base)
                     sc['faults'] = {kind: {str(k): act}}
-                    out.append(sc)
-    out.append(make_scenario(rng, 258, 3, 10))
-    out.append(make_scenario(rng, 3, 300, 5))
-    out.append(make_scenario(rng, 255, 2, 3))
-    out.append(make_scenario(rng, 3, 5, 10, cache=True, connects=2))
-    out.append(make_scenario(rng, 2, 6, 3, cache=True, connects=2))
+                    out.append((sc, ('accept_any', 'ext_any', 'early_done', 'last_index')))
+    big = ('trunc8', 'info_u8', 'last_index')
+    out.append((make_scenario(rng, 258, 3, 10), big))
+    if tier != 'quick':
+        out.append((make_scenario(rng, 3, 300, 5), big))
+        out.append((make_scenario(rng, 255, 2, 3), big))
+    c = make_scenario(rng, 2, 4, 10, cache=True, connects=2)
+    for e, t in zip(c['param'], (0x18, 0x19, 0x06, 0x50)):
+        e['type'] = t
+        e['xt'] = 1
+        e['value'] = e['default'] = bytes(tocdev.PARAM_WIDTH[t & 0x0F])
+    out.append((c, None))
     return out
 
 
@@ -1001,22 +1026,38 @@ def main(tier, seed, replay=None):
 
     def lap(name):
         timing[name] = round(_time.time() - _t[0], 1)
+        if os.environ.get('VERIF_TIMING'):
+            import sys
+            print('[C03 timing] %s %.1fs' % (name, timing[name]), file=sys.stderr)
         _t[0] = _time.time()
     # 1. design spec: exhaustive; every bug configuration must be refuted (vacuity guard)
-    cfgs = ['MC_TocFetch_quick.cfg', 'MC_TocFetch_boundary_quick.cfg'] if quick else \
-           ['MC_TocFetch_thorough.cfg', 'MC_TocFetch_boundary.cfg']
-    for cfg in cfgs:
-        r = tlc.check('MC_TocFetch.tla', cfg, coverage=(not quick and 'boundary' not in cfg), timeout=3000)
-        out.add_tlc(cfg, r)
-    for bug in ('offbyone', 'acceptany', 'earlydone', 'accessmask', 'trunc8'):
-        rb = tlc.expect_violation('MC_TocFetch.tla', 'MC_TocFetch_bug_%s.cfg' % bug, timeout=900)
-        out.sensitivity['spec:' + bug] = 'refuted (%s) after %d states' % (rb.violated, rb.distinct)
-
-    lap('1_design_spec_tlc')
     # 2. spec -> code: a transition tour of the complete state graph (every order of replies,
     #    duplicates and timeouts the fault budget allows) + random simulation of larger tables
+    #    (the TLC runs are independent processes: started together)
+    from concurrent.futures import ThreadPoolExecutor
+    cfgs = ['MC_TocFetch_quick.cfg', 'MC_TocFetch_boundary_quick.cfg'] if quick else \
+           ['MC_TocFetch_thorough.cfg', 'MC_TocFetch_boundary.cfg', 'MC_TocFetch_deep.cfg']
+    bugs = ('offbyone', 'acceptany', 'earlydone', 'accessmask', 'trunc8')
     gcfg = 'MC_TocFetch_quick.cfg' if quick else 'MC_TocFetch_thorough.cfg'
-    rg, g = tlc.dump_graph('MC_TocFetch.tla', gcfg, timeout=3000)
+    nsim = 150 if quick else 1000
+    w = max(2, common.NCPU // 4)
+    with ThreadPoolExecutor(max_workers=9) as ex:
+        f_chk = [ex.submit(tlc.check, 'MC_TocFetch.tla', cfg, coverage=(not quick and 'boundary' not in cfg),
+                           timeout=3000, workers=(w if 'boundary' in cfg else 2), heap='3g') for cfg in cfgs[1:]]
+        f_bug = [ex.submit(tlc.expect_violation, 'MC_TocFetch.tla', 'MC_TocFetch_bug_%s.cfg' % bug, timeout=900, workers=2, heap='2g')
+                 for bug in bugs]
+        f_dump = ex.submit(tlc.dump_graph, 'MC_TocFetch.tla', gcfg, timeout=3000, workers=1, coverage=not quick, heap='3g')
+        f_sim = ex.submit(tlc.simulate, 'MC_TocFetch.tla', 'SIM_TocFetch.cfg', num=nsim, depth=50,
+                          seed=seed % 100000, timeout=1800, heap='3g')
+        rg, g = f_dump.result()
+        out.add_tlc(gcfg + ' (exhaustive, graph dumped)', rg)       # the dump run is the exhaustive check of gcfg
+        for cfg, f in zip(cfgs[1:], f_chk):
+            out.add_tlc(cfg, f.result())
+        for bug, f in zip(bugs, f_bug):
+            rb = f.result()
+            out.sensitivity['spec:' + bug] = 'refuted (%s) after %d states' % (rb.violated, rb.distinct)
+        rs, behs = f_sim.result()
+    lap('1_design_spec_tlc')
     paths, covered, total = tlc.tour(g, max_len=60)
     jobs = []
     for init, path in paths:
@@ -1025,8 +1066,6 @@ def main(tier, seed, replay=None):
         if j:
             jobs.append(j)
     ntour = len(jobs)
-    nsim = 150 if quick else 1500
-    rs, behs = tlc.simulate('MC_TocFetch.tla', 'SIM_TocFetch.cfg', num=nsim, depth=50, seed=seed % 100000, timeout=1800)
     out.add_tlc('SIM_TocFetch.cfg (-simulate num=%d)' % nsim, rs)
     jobs += [j for j in (behaviour_job(b) for b in behs) if j]
     lap('2a_graph_tour_simulate')
@@ -1039,38 +1078,38 @@ def main(tier, seed, replay=None):
     out.conformance['spec_to_code'] = {'behaviours': len(jobs), 'tour_paths': ntour, 'graph_edges': total,
                                        'graph_edges_covered': covered, 'steps': steps, 'steps_matched': matched,
                                        'first_mismatches': [str(m)[:300] for m in mism[:3]]}
-    bad, drift, unconn = judge(out, rtraces, 'replayed TLC behaviours')
-    for (i, clause, at, wit) in bad:
-        out.violation(signature(rtraces[i], clause, at, wit), clause,
-                      {'event_index': at, 'witness': wit, 'source': 'replayed TLC behaviour'}, {'job': jobs[i]})
-    rdrift = len(drift)
-    if unconn:
-        raise common.MachineryError('%d replayed behaviours did not reach connected (first: %s)' %
-                                    (len(unconn), str(jobs[unconn[0]]['cfg'])[:200]))
-
-    lap('2c_judge_replays')
-    # 3. code -> spec: enumerated and seeded-random scenarios, judged by the monitor
+    # 3. code -> spec: enumerated and seeded-random scenarios; everything recorded from the real
+    #    code (replays included) is judged by TLC: monitor = verdict, conformance = binding
     fam_scs = scenarios(tier, rng)
     scs = [x[1] for x in fam_scs]
     traces = run_scenarios(scs)
     lap('3a_run_scenarios')
-    bad, drift, unconn = judge(out, traces, 'real code')
-    lap('3b_judge_scenarios')
+    nr = len(rtraces)
+    bad, drift, unconn = judge(out, rtraces + traces, 'real code: replays + scenarios')
+    lap('3b_judge_all_traces')
     fams = {}
     for (f, _sc) in fam_scs:
         fams[f] = fams.get(f, 0) + 1
-    out.conformance['code_to_spec'] = {'traces': len(traces) + len(rtraces),
-                                       'explained_by_design_spec': len(traces) + len(rtraces) - len(drift) - rdrift,
-                                       'drift_examples': [{'scenario': _summary(scs[i]), 'event': at} for i, at in drift[:3]]}
+    out.conformance['code_to_spec'] = {'traces': nr + len(traces),
+                                       'explained_by_design_spec': nr + len(traces) - len(drift),
+                                       'drift_examples': [({'scenario': _summary(scs[i - nr])} if i >= nr else
+                                                           {'replayed_cfg': str(jobs[i]['cfg'])[:200]}, at)
+                                                          for i, at in drift[:3]]}
     for (i, clause, at, wit) in bad:
-        out.violation(signature(traces[i], clause, at, wit), clause,
-                      {'event_index': at, 'witness': wit, 'family': fam_scs[i][0], 'scenario': _summary(scs[i]),
-                       'detail': traces[i].get('detail')},
-                      {'scenario': _jsonable(scs[i])})
+        if i < nr:
+            out.violation(signature(rtraces[i], clause, at, wit), clause,
+                          {'event_index': at, 'witness': wit, 'source': 'replayed TLC behaviour'}, {'job': jobs[i]})
+        else:
+            i -= nr
+            out.violation(signature(traces[i], clause, at, wit), clause,
+                          {'event_index': at, 'witness': wit, 'family': fam_scs[i][0], 'scenario': _summary(scs[i]),
+                           'detail': traces[i].get('detail')},
+                          {'scenario': _jsonable(scs[i])})
     if unconn:
         i = unconn[0]
-        raise common.MachineryError('%d executions did not reach connected as often as expected; first: %s detail %s' %
-                                    (len(unconn), _summary(scs[i]), traces[i].get('detail')))
+        what = str(jobs[i]['cfg'])[:200] if i < nr else '%s detail %s' % (_summary(scs[i - nr]), traces[i - nr].get('detail'))
+        raise common.MachineryError('%d executions did not reach connected as often as expected; first: %s' %
+                                    (len(unconn), what))
     all_traces = rtraces + traces
     out.evaluations = len(all_traces)
     out.distinct = len({json.dumps([t['dev'], [(e['e'], e.get('kind'), e.get('d')) for e in t['ev']
@@ -1095,21 +1134,32 @@ def main(tier, seed, replay=None):
                     'library_param_table_at_connected': next((e['param'][:2] for e in traces[i]['ev'] if e['e'] == 'connected'), None)}
                    for i in pick]
 
+    # observations outside the verdict (inputs the property's quantifier does not include)
+    probe = make_scenario(random.Random(3), 2, 1, 10)
+    probe['log'][1]['type'] = 0x21            # LOG_CORE | uint8_t: the dissector knows this flag for log items
+    probe['max_wait'] = 12
+    pt = run_scenarios([probe])[0]
+    out.extra['observations'] = {
+        'log_item_type_byte_with_flag_bit_0x20': 'connected=%d of 1 (LogTocElement looks the whole byte up in its type '
+                                                 'table: KeyError, the download stalls); not judged' % pt['detail']['connected']}
     # 4. sensitivity: in-memory mutants of the code under test must be rejected by the monitor
     suite = mutant_suite(random.Random(seed + 1), tier)
+    mjobs = [(sc, name) for name in sorted(MUTANTS) for (sc, only) in suite if only is None or name in only]
+    mt = common.pmap(_exec_job, mjobs, init=_init, maxtasks=40)
+    o2 = common.Outcome('C03', tier, seed)
+    mbad, _md, mun = judge(o2, mt, 'mutants', count=False)
     for name in sorted(MUTANTS):
-        mt = run_scenarios(suite, mutant=name)
-        o2 = common.Outcome('C03', tier, seed)
-        mbad, _md, mun = judge(o2, mt, 'mutant ' + name, count=False)
-        clauses = sorted({c for (_i, c, _a, _w) in mbad})
+        idx = [i for i, j in enumerate(mjobs) if j[1] == name]
+        rej = [(i, c) for (i, c, _a, _w) in mbad if i in idx]
+        clauses = sorted({c for (_i, c) in rej})
         out.sensitivity['mutant:' + name] = '%d of %d traces rejected (%s); %d never connected' % (
-            len(mbad), len(mt), ','.join(clauses) or '-', len(mun))
-        if not mbad:
+            len(rej), len(idx), ','.join(clauses) or '-', sum(1 for i in mun if i in idx))
+        if not rej:
             raise common.MachineryError('monitor did not reject in-memory mutant %s' % name)
     lap('4a_mutants')
     # binding self-tests on a recorded trace: a corrupted observation and a dropped protocol event
     src = next(t for t in traces if any(e['e'] == 'connected' and e['param'] for e in t['ev'])
-               and sum(1 for e in t['ev'] if e['e'] == 'rx') >= 3)
+               and sum(1 for e in t['ev'] if e['e'] == 'rx' and e['kind'] == 'param') >= 3)
     t1 = copy.deepcopy(src)
     ce = next(e for e in t1['ev'] if e['e'] == 'connected')
     ce['param'][0]['ident'] += 1
@@ -1117,15 +1167,18 @@ def main(tier, seed, replay=None):
     ce = next(e for e in t2['ev'] if e['e'] == 'connected')
     ce['lkparam'][0]['byid'] = []
     t3 = copy.deepcopy(src)
-    del t3['ev'][next(i for i, e in enumerate(t3['ev']) if e['e'] == 'rx')]
+    del t3['ev'][next(i for i, e in enumerate(t3['ev']) if e['e'] == 'rx' and e['kind'] == 'param')]
     t4 = copy.deepcopy(src)
-    rx = [e for e in t4['ev'] if e['e'] == 'rx'][1]
+    rx = [e for e in t4['ev'] if e['e'] == 'rx' and e['kind'] == 'param'][1]
     rx['st']['reqIdx'] += 1
     o2 = common.Outcome('C03', tier, seed)
-    for name, t, want in (('corrupt-ident-in-snapshot', t1, 'monitor'), ('corrupt-lookup-result', t2, 'monitor'),
-                          ('drop-one-rx-event', t3, 'conform'), ('corrupt-projection', t4, 'conform')):
-        cbad, cdrift, _u = judge(o2, [t], 'corrupted', count=False)
-        ok = bool(cbad) if want == 'monitor' else bool(cdrift or cbad)
+    tests = (('corrupt-ident-in-snapshot', t1, 'monitor'), ('corrupt-lookup-result', t2, 'monitor'),
+             ('drop-one-rx-event', t3, 'conform'), ('corrupt-projection', t4, 'conform'))
+    cbad, cdrift, _u = judge(o2, [t for (_n, t, _w) in tests], 'corrupted', count=False)
+    for k, (name, t, want) in enumerate(tests):
+        hit_m = any(i == k for (i, _c, _a, _w2) in cbad)
+        hit_c = any(i == k for (i, _a) in cdrift)
+        ok = hit_m if want == 'monitor' else (hit_c or hit_m)
         out.sensitivity['binding:' + name] = ('rejected by %s' % want) if ok else 'ACCEPTED'
         if not ok:
             raise common.MachineryError('trace spec accepted corrupted trace %s' % name)
